@@ -66,6 +66,10 @@ UnFlags(b) == [allP |-> (b % 2) = 1, trZero |-> ((b \div 2) % 2) = 1, eqTR |-> (
                alZero |-> ((b \div 32) % 2) = 1]
 NoFlags == UnFlags(0)
 LenClasses == {"c0", "c1", "c2", "big", "huge"}
+\* units of data actually present behind a big/huge claim in the "fat" inputs: more than any
+\* fixed pre-allocation a decoder may make on the strength of the claim (the real decoder's is
+\* 64 KiB), far fewer than claimed
+FatN == 70000
 ClaimVal(c) == CASE c = "c0" -> 0 [] c = "c1" -> 1 [] c = "c2" -> 2 [] c = "big" -> BigVal [] c = "huge" -> HugeVal
 Unit(ty) == IF ty = "F" THEN Dens ELSE 1
 Min2(a, b) == IF a < b THEN a ELSE b
@@ -165,7 +169,7 @@ Data(n) ==
          v == ClaimVal(cc)
          u == Unit(cur.ty)
          full == n = v
-     IN /\ n \in (IF cc \in {"big", "huge"} THEN {0, 2} ELSE 0..v)
+     IN /\ n \in (IF cc \in {"big", "huge"} THEN {0, 2, FatN} ELSE 0..v)
         /\ Emit1(Tok("data", cur.ty \o ToString(cur.k), v, n, FALSE))   \* class = type and key, e.g. "F1", "V2"
         /\ alloc' = IF scen = "dyn0" THEN 0
                     ELSE alloc + (IF AllocFromWire THEN v * u ELSE Min2(v * u, n * u))
@@ -206,7 +210,7 @@ Next == /\ out = "run"
            \/ \E j \in BOOLEAN : SerAll(j)
            \/ \E k \in 1..9 : Key(k)
            \/ \E c \in LenClasses : Len1(c)
-           \/ \E n \in 0..2 : Data(n)
+           \/ \E n \in 0..2 \cup {FatN} : Data(n)
            \/ TR1 \/ Al1 \/ End \/ Cut
 Spec == Init /\ [][Next]_vars
 
